@@ -205,6 +205,7 @@ func (c *Ctx) afterEdges(o *Origins, from map[Edge]bool, cond *Cond) (bool, stri
 
 func rulesC05(c *Ctx) {
 	R := c.R
+	R.Rule("R8", "the storage readers of a melt quote report what is stored: every column scanned into a local (state kept as text, the MPP flag and amount) is carried into the returned quote", 4)
 	R.Rule("R1", "melt op / poll: spend + PAID only behind success facts; release + UNPAID only behind definitive-failure facts after a Failed pay; completeness on both edges; constants and preimage written", 30)
 	R.Rule("R2", "Lightning answer status is read only where the paired error is nil or after the Failed override", 4)
 	R.Rule("R7", "the lock on a melt's inputs is exclusive: the pending-table insert is a plain INSERT in one transaction (a second melt cannot take over or share the lock; shared with C01.R6)", 4)
@@ -217,6 +218,7 @@ func rulesC05(c *Ctx) {
 	c.vocabProblems("R1")
 	c.meltDecisionTable("R1", true)
 	c.c05Backends()
+	c.scannedLocalsReachResult("R8", "GetMeltQuote", "GetMeltQuoteByPaymentRequest")
 	c.ruleResolveBeforeAnswer("R5")
 }
 
